@@ -166,6 +166,286 @@ theorem C14_plain_cuts_are_boundaries (chars : List (List Nat)) (h1 : ∀ c ∈ 
   cuts_on_boundaries noBoundary chars per (C14_plain_rule_sound chars h1 per)
     (fun b _ _ => by simp [noBoundary]; omega) _ 0 (isBoundary_zero chars)
 
+/-! ### UCS-2 / UTF-16BE: surrogate pairs -/
+
+/-- a UTF-16BE octet string segmented into characters: two octets whose first is not a surrogate
+    octet, or a surrogate pair of four octets (first octet D8..DB, third octet DC..DF) -/
+def UcsSeg (chars : List (List Nat)) : Prop :=
+  ∀ c ∈ chars, (∃ a b, c = [a, b] ∧ a / 4 ≠ 0x36 ∧ a / 4 ≠ 0x37) ∨
+    (∃ h1 h2 l1 l2, c = [h1, h2, l1, l2] ∧ h1 / 4 = 0x36 ∧ l1 / 4 = 0x37)
+
+/-- the 16-bit unit at an even offset decides: a high surrogate starts a character (and its partner
+    is there), anything else ends one -/
+theorem ucs_boundary_unit (chars : List (List Nat)) (hseg : UcsSeg chars) (m : Nat)
+    (hq : 2 * m + 2 ≤ chars.flatten.length) :
+    (chars.flatten.getD (2 * m) 0 / 4 = 0x36 → IsBoundary chars (2 * m) ∧ 2 * m + 4 ≤ chars.flatten.length) ∧
+    (chars.flatten.getD (2 * m) 0 / 4 ≠ 0x36 → IsBoundary chars (2 * m + 2)) := by
+  induction chars generalizing m with
+  | nil => simp at hq
+  | cons c rest ih =>
+    have hc := hseg c (by simp)
+    have hrest : UcsSeg rest := fun x hx => hseg x (by simp [hx])
+    rw [flatten_cons_length] at hq ⊢
+    rcases hc with ⟨a, b, rfl, ha1, ha2⟩ | ⟨h1, h2, l1, l2, rfl, hh, hl⟩
+    · -- a BMP character
+      cases m with
+      | zero =>
+        simp only [Nat.mul_zero, List.flatten_cons, List.cons_append, List.nil_append, List.getD_cons_zero]
+        exact ⟨fun h => absurd h ha1, fun _ => ⟨1, by simp, by simp⟩⟩
+      | succ m =>
+        have hq' : 2 * m + 2 ≤ rest.flatten.length := by
+          simp only [List.length_cons, List.length_nil] at hq; omega
+        have := ih hrest m hq'
+        have hget : ([a, b] :: rest).flatten.getD (2 * (m + 1)) 0 = rest.flatten.getD (2 * m) 0 := by
+          have : 2 * (m + 1) = 2 * m + 1 + 1 := by omega
+          rw [this]
+          simp only [List.flatten_cons, List.cons_append, List.nil_append, List.getD_cons_succ]
+        rw [hget]
+        constructor
+        · intro h
+          obtain ⟨hb, hlen⟩ := this.1 h
+          refine ⟨(isBoundary_cons [a, b] rest (2 * (m + 1)) (by simp only [List.length_cons, List.length_nil]; omega)).2 ?_, by simp only [List.length_cons, List.length_nil]; omega⟩
+          have e : 2 * (m + 1) - [a, b].length = 2 * m := by simp only [List.length_cons, List.length_nil]; omega
+          rw [e]; exact hb
+        · intro h
+          refine (isBoundary_cons [a, b] rest (2 * (m + 1) + 2) (by simp only [List.length_cons, List.length_nil]; omega)).2 ?_
+          have e : 2 * (m + 1) + 2 - [a, b].length = 2 * m + 2 := by simp only [List.length_cons, List.length_nil]; omega
+          rw [e]; exact this.2 h
+    · -- a surrogate pair
+      cases m with
+      | zero =>
+        simp only [Nat.mul_zero, List.flatten_cons, List.cons_append, List.nil_append, List.getD_cons_zero]
+        exact ⟨fun _ => ⟨isBoundary_zero _, by simp only [List.length_cons, List.length_nil]; omega⟩,
+          fun h => absurd hh h⟩
+      | succ m =>
+        cases m with
+        | zero =>
+          simp only [List.flatten_cons, List.cons_append, List.nil_append, List.getD_cons_succ, List.getD_cons_zero]
+          constructor
+          · intro h; rw [hl] at h; omega
+          · intro _; exact ⟨1, by simp, by simp⟩
+        | succ m =>
+          have hq' : 2 * m + 2 ≤ rest.flatten.length := by
+            simp only [List.length_cons, List.length_nil] at hq; omega
+          have := ih hrest m hq'
+          have hget : ([h1, h2, l1, l2] :: rest).flatten.getD (2 * (m + 1 + 1)) 0 = rest.flatten.getD (2 * m) 0 := by
+            have : 2 * (m + 1 + 1) = 2 * m + 1 + 1 + 1 + 1 := by omega
+            rw [this]
+            simp only [List.flatten_cons, List.cons_append, List.nil_append, List.getD_cons_succ]
+          rw [hget]
+          constructor
+          · intro h
+            obtain ⟨hb, hlen⟩ := this.1 h
+            refine ⟨(isBoundary_cons [h1, h2, l1, l2] rest (2 * (m + 1 + 1)) (by simp only [List.length_cons, List.length_nil]; omega)).2 ?_, by simp only [List.length_cons, List.length_nil]; omega⟩
+            have e : 2 * (m + 1 + 1) - [h1, h2, l1, l2].length = 2 * m := by simp only [List.length_cons, List.length_nil]; omega
+            rw [e]; exact hb
+          · intro h
+            refine (isBoundary_cons [h1, h2, l1, l2] rest (2 * (m + 1 + 1) + 2) (by simp only [List.length_cons, List.length_nil]; omega)).2 ?_
+            have e : 2 * (m + 1 + 1) + 2 - [h1, h2, l1, l2].length = 2 * m + 2 := by simp only [List.length_cons, List.length_nil]; omega
+            rw [e]; exact this.2 h
+
+/-- character boundaries of a UTF-16 text are at even offsets -/
+theorem ucs_boundary_even (chars : List (List Nat)) (hseg : UcsSeg chars) (b : Nat) (hb : IsBoundary chars b) :
+    b % 2 = 0 := by
+  obtain ⟨k, hk, rfl⟩ := hb
+  clear hk
+  induction chars generalizing k with
+  | nil => simp
+  | cons c rest ih =>
+    cases k with
+    | zero => simp
+    | succ k =>
+      have hc := hseg c (by simp)
+      have := ih (fun x hx => hseg x (by simp [hx])) k
+      simp only [List.take_succ_cons, List.flatten_cons, List.length_append]
+      rcases hc with ⟨a, b, rfl, _, _⟩ | ⟨h1, h2, l1, l2, rfl, _, _⟩ <;>
+        (simp only [List.length_cons, List.length_nil]; omega)
+
+/-- **the surrogate rule is sound**: for UTF-16BE text and an even capacity of at least four octets
+    the cut chosen by the code is a character boundary -/
+theorem C14_ucs2_rule_sound (chars : List (List Nat)) (hseg : UcsSeg chars) (per : Nat) (hper : 4 ≤ per)
+    (heven : per % 2 = 0) :
+    BoundarySound ucs2Boundary chars per ∧
+    (∀ b, IsBoundary chars b → b + per < chars.flatten.length →
+      b < ucs2Boundary chars.flatten b (b + per) ∧ ucs2Boundary chars.flatten b (b + per) ≤ b + per) := by
+  constructor
+  · intro b hb hlt _ _
+    have hbe := ucs_boundary_even chars hseg b hb
+    obtain ⟨m, hm⟩ : ∃ m, b + per - 2 = 2 * m := ⟨(b + per - 2) / 2, by omega⟩
+    have key := ucs_boundary_unit chars hseg m (by omega)
+    rw [← hm] at key
+    have e1 : b + per - 2 + 2 = b + per := by omega
+    rw [e1] at key
+    unfold ucs2Boundary
+    by_cases hs : chars.flatten.getD (b + per - 2) 0 / 4 = 0x36
+    · have : b + per - b ≥ 4 := by omega
+      have h36 : (0xD8 : Nat) / 4 = 0x36 := by decide
+      simp only [this, hs, h36, and_self, if_true]
+      exact (key.1 hs).1
+    · have h36 : (0xD8 : Nat) / 4 = 0x36 := by decide
+      simp only [h36, hs, and_false, if_false]
+      exact key.2 hs
+  · intro b _ _
+    unfold ucs2Boundary
+    split <;> omega
+
+/-- **standalone_decodable (UCS-2)**: every cut the splitter makes in a UTF-16BE message is a
+    character boundary: no surrogate pair straddles two parts -/
+theorem C14_ucs2_cuts_are_boundaries (chars : List (List Nat)) (hseg : UcsSeg chars) (per : Nat) (hper : 4 ≤ per)
+    (heven : per % 2 = 0) :
+    ∀ e ∈ cutPoints ucs2Boundary chars.flatten per (chars.flatten.length + 1) 0, IsBoundary chars e :=
+  cuts_on_boundaries ucs2Boundary chars per (C14_ucs2_rule_sound chars hseg per hper heven).1
+    (C14_ucs2_rule_sound chars hseg per hper heven).2 _ 0 (isBoundary_zero chars)
+
+/-- U+4F60, U+1F600 (D83D DE00), U+597D -/
+example : UcsSeg [[0x4F, 0x60], [0xD8, 0x3D, 0xDE, 0x00], [0x59, 0x7D]] := by
+  intro c hc
+  simp at hc
+  rcases hc with rfl | rfl | rfl
+  · exact Or.inl ⟨_, _, rfl, by decide, by decide⟩
+  · exact Or.inr ⟨_, _, _, _, rfl, by decide, by decide⟩
+  · exact Or.inl ⟨_, _, rfl, by decide, by decide⟩
+
+/-! ### GB18030: one, two and four octet characters -/
+
+/-- a GB18030 octet string segmented into characters -/
+def GbSeg (chars : List (List Nat)) : Prop :=
+  ∀ c ∈ chars, (∃ a, c = [a] ∧ (a < 0x81 ∨ a = 0xFF)) ∨
+    (∃ a b, c = [a, b] ∧ 0x81 ≤ a ∧ a ≠ 0xFF ∧ ¬ (0x30 ≤ b ∧ b ≤ 0x39)) ∨
+    (∃ a b c' d, c = [a, b, c', d] ∧ 0x81 ≤ a ∧ a ≠ 0xFF ∧ 0x30 ≤ b ∧ b ≤ 0x39)
+
+theorem getD_append_shift (c l : List Nat) (i : Nat) : (c ++ l).getD (c.length + i) 0 = l.getD i 0 := by
+  simp [List.getD_eq_getElem?_getD, List.getElem?_append_right]
+
+theorem gbCharLen_shift (c l : List Nat) (i : Nat) : gbCharLen (c ++ l) (c.length + i) = gbCharLen l i := by
+  unfold gbCharLen
+  rw [getD_append_shift, show c.length + i + 1 = c.length + (i + 1) by omega, getD_append_shift]
+
+theorem isBoundary_pos_ge (c : List Nat) (rest : List (List Nat)) (p : Nat) (hb : IsBoundary (c :: rest) p)
+    (hp : 0 < p) : c.length ≤ p := by
+  obtain ⟨k, _, rfl⟩ := hb
+  cases k with
+  | zero => simp at hp
+  | succ k => simp only [List.take_succ_cons, List.flatten_cons, List.length_append]; omega
+
+/-- scanning from a character boundary, the length the code computes is the length of the character
+    that starts there: the next scan position is again a boundary -/
+theorem gb_step (chars : List (List Nat)) (hseg : GbSeg chars) (p : Nat) (hb : IsBoundary chars p)
+    (hlt : p < chars.flatten.length) :
+    IsBoundary chars (p + gbCharLen chars.flatten p) ∧ 1 ≤ gbCharLen chars.flatten p ∧
+      gbCharLen chars.flatten p ≤ 4 ∧ p + gbCharLen chars.flatten p ≤ chars.flatten.length := by
+  induction chars generalizing p with
+  | nil => simp at hlt
+  | cons c rest ih =>
+    have hc := hseg c (by simp)
+    have hrest : GbSeg rest := fun x hx => hseg x (by simp [hx])
+    by_cases hp0 : p = 0
+    · subst hp0
+      simp only [Nat.zero_add]
+      rcases hc with ⟨a, rfl, ha⟩ | ⟨a, b, rfl, ha1, ha2, hb2⟩ | ⟨a, b, c', d, rfl, ha1, ha2, hb1, hb2⟩
+      · have : gbCharLen ([[a]] ++ rest).flatten 0 = 1 := by
+          simp only [gbCharLen, List.flatten_cons, List.cons_append, List.nil_append, List.getD_cons_zero]
+          simp [ha]
+        simp only [List.cons_append, List.nil_append] at this
+        rw [this]
+        exact ⟨⟨1, by simp, by simp⟩, by omega, by omega, by simp [flatten_cons_length]⟩
+      · have : gbCharLen ([a, b] :: rest).flatten 0 = 2 := by
+          simp only [gbCharLen, List.flatten_cons, List.cons_append, List.nil_append, List.getD_cons_zero,
+            List.getD_cons_succ]
+          have h1 : ¬ (a < 0x81 ∨ a = 0xFF) := by omega
+          simp [h1, hb2]
+        rw [this]
+        exact ⟨⟨1, by simp, by simp⟩, by omega, by omega, by simp [flatten_cons_length]⟩
+      · have : gbCharLen ([a, b, c', d] :: rest).flatten 0 = 4 := by
+          simp only [gbCharLen, List.flatten_cons, List.cons_append, List.nil_append, List.getD_cons_zero,
+            List.getD_cons_succ]
+          have h1 : ¬ (a < 0x81 ∨ a = 0xFF) := by omega
+          simp [h1, hb1, hb2]
+        rw [this]
+        exact ⟨⟨1, by simp, by simp⟩, by omega, by omega, by simp [flatten_cons_length]⟩
+    · have hge := isBoundary_pos_ge c rest p hb (by omega)
+      obtain ⟨p', rfl⟩ : ∃ p', p = c.length + p' := ⟨p - c.length, by omega⟩
+      have hb' : IsBoundary rest p' := by
+        have := (isBoundary_cons c rest (c.length + p') (by omega)).1 hb
+        simpa using this
+      rw [flatten_cons_length] at hlt
+      obtain ⟨i1, i2, i3, i4⟩ := ih hrest p' hb' (by omega)
+      have hshift : gbCharLen (c :: rest).flatten (c.length + p') = gbCharLen rest.flatten p' := by
+        simp only [List.flatten_cons]; exact gbCharLen_shift c rest.flatten p'
+      rw [hshift, flatten_cons_length]
+      refine ⟨?_, i2, i3, by omega⟩
+      refine (isBoundary_cons c rest _ (by omega)).2 ?_
+      have e : c.length + p' + gbCharLen rest.flatten p' - c.length = p' + gbCharLen rest.flatten p' := by omega
+      rw [e]; exact i1
+
+/-- the scan only ever stands on character boundaries, never passes `e`, never goes back -/
+theorem gbScan_boundary (chars : List (List Nat)) (hseg : GbSeg chars) (e : Nat) (he : e ≤ chars.flatten.length) :
+    ∀ (fuel pos : Nat), IsBoundary chars pos → pos ≤ e →
+      IsBoundary chars (gbScan chars.flatten e fuel pos) ∧ pos ≤ gbScan chars.flatten e fuel pos ∧
+        gbScan chars.flatten e fuel pos ≤ e
+  | 0, pos, hb, hle => by simp only [gbScan]; exact ⟨hb, Nat.le_refl _, hle⟩
+  | fuel+1, pos, hb, hle => by
+    simp only [gbScan]
+    split
+    · rename_i hnxt
+      have hlt : pos < chars.flatten.length := by
+        rcases Nat.lt_or_ge pos chars.flatten.length with h | h
+        · exact h
+        · -- at the end of the data the computed length is 1 (a missing octet reads as 0)
+          exfalso
+          have : gbCharLen chars.flatten pos = 1 := by
+            simp [gbCharLen, List.getD_eq_getElem?_getD, List.getElem?_eq_none h]
+          omega
+      obtain ⟨s1, s2, _, _⟩ := gb_step chars hseg pos hb hlt
+      obtain ⟨r1, r2, r3⟩ := gbScan_boundary chars hseg e he fuel _ s1 hnxt
+      exact ⟨r1, by omega, r3⟩
+    · exact ⟨hb, Nat.le_refl _, hle⟩
+
+/-- **the GB18030 rule is sound**: with a capacity of at least four octets the cut chosen by the code
+    is a character boundary strictly after the previous one -/
+theorem C14_gb18030_rule_sound (chars : List (List Nat)) (hseg : GbSeg chars) (per : Nat) (hper : 4 ≤ per) :
+    BoundarySound gbBoundary chars per ∧
+    (∀ b, IsBoundary chars b → b + per < chars.flatten.length →
+      b < gbBoundary chars.flatten b (b + per) ∧ gbBoundary chars.flatten b (b + per) ≤ b + per) := by
+  have key : ∀ b, IsBoundary chars b → b + per < chars.flatten.length →
+      IsBoundary chars (gbScan chars.flatten (b + per) (b + per - b) b) ∧
+      b < gbScan chars.flatten (b + per) (b + per - b) b ∧ gbScan chars.flatten (b + per) (b + per - b) b ≤ b + per := by
+    intro b hb hlt
+    obtain ⟨f, hf⟩ : ∃ f, b + per - b = f + 1 := ⟨per - 1, by omega⟩
+    rw [hf]
+    simp only [gbScan]
+    obtain ⟨s1, s2, s3, _⟩ := gb_step chars hseg b hb (by omega)
+    have hn : b + gbCharLen chars.flatten b ≤ b + per := by omega
+    rw [if_pos hn]
+    obtain ⟨r1, r2, r3⟩ := gbScan_boundary chars hseg (b + per) (by omega) f _ s1 hn
+    exact ⟨r1, by omega, r3⟩
+  constructor
+  · intro b hb hlt _ _
+    obtain ⟨k1, k2, _⟩ := key b hb hlt
+    unfold gbBoundary
+    simp only [k2, if_true]
+    exact k1
+  · intro b hb hlt
+    obtain ⟨_, k2, k3⟩ := key b hb hlt
+    unfold gbBoundary
+    simp only [k2, if_true]
+    exact ⟨trivial, k3⟩
+
+/-- **standalone_decodable (GB18030)** -/
+theorem C14_gb18030_cuts_are_boundaries (chars : List (List Nat)) (hseg : GbSeg chars) (per : Nat) (hper : 4 ≤ per) :
+    ∀ e ∈ cutPoints gbBoundary chars.flatten per (chars.flatten.length + 1) 0, IsBoundary chars e :=
+  cuts_on_boundaries gbBoundary chars per (C14_gb18030_rule_sound chars hseg per hper).1
+    (C14_gb18030_rule_sound chars hseg per hper).2 _ 0 (isBoundary_zero chars)
+
+/-- 'A', U+4F60 (C4 E3), U+1F600 (94 39 FC 36) -/
+example : GbSeg [[0x41], [0xC4, 0xE3], [0x94, 0x39, 0xFC, 0x36]] := by
+  intro c hc
+  simp at hc
+  rcases hc with rfl | rfl | rfl
+  · exact Or.inl ⟨_, rfl, by decide⟩
+  · exact Or.inr (Or.inl ⟨_, _, rfl, by decide, by decide, by decide⟩)
+  · exact Or.inr (Or.inr ⟨_, _, _, _, rfl, by decide, by decide, by decide, by decide⟩)
+
 example : GsmSeg [[0x31], [Gsm7.esc, 0x3C], [0x00]] := by
   intro c hc
   simp at hc
@@ -183,5 +463,9 @@ open SmsVerif.C14
 #print axioms C14_gsm_rule_sound
 #print axioms C14_gsm_cuts_are_boundaries
 #print axioms C14_plain_cuts_are_boundaries
+#print axioms C14_ucs2_rule_sound
+#print axioms C14_ucs2_cuts_are_boundaries
+#print axioms C14_gb18030_rule_sound
+#print axioms C14_gb18030_cuts_are_boundaries
 #print axioms SmsVerif.Split.cuts_on_boundaries
 end
